@@ -59,12 +59,14 @@ class time_limit:
         raise Nonterminating("implementation did not finish within %.0f s" % self.seconds)
 
     def __enter__(self):
-        self.old = signal.signal(signal.SIGALRM, self._fire)
-        signal.setitimer(signal.ITIMER_REAL, self.seconds)
+        # CPU time of this process, not wall-clock: on a loaded machine a wall-clock alarm fires
+        # on healthy code and would be reported as a non-terminating container (false alarm)
+        self.old = signal.signal(signal.SIGVTALRM, self._fire)
+        signal.setitimer(signal.ITIMER_VIRTUAL, self.seconds)
 
     def __exit__(self, *a):
-        signal.setitimer(signal.ITIMER_REAL, 0)
-        signal.signal(signal.SIGALRM, self.old)
+        signal.setitimer(signal.ITIMER_VIRTUAL, 0)
+        signal.signal(signal.SIGVTALRM, self.old)
         return False
 
 
